@@ -17,11 +17,12 @@ def run(ctx):
     cases = B.gen_cases(ctx, n, big=ctx.thorough)
     models = B.model_side(cases)
     for (kind, v), m in zip(cases, models):
-        opts = dict(wide=ctx.rng.random() < 0.3, vpstyle=ctx.rng.choice([0, 0, 1]))
+        opts = dict(wide=ctx.rng.random() < 0.3, vpstyle=ctx.rng.choice([0, 0, 1]),
+                    prov=ctx.rng.choice(A.PROVENANCES) if ctx.rng.random() < 0.2 else None)
         r = B.real_side(kind, v, **opts)
         rep = dict(kind=kind, v=v, **opts)
         ctx.case((kind, v), nontrivial=A.nontrivial(kind, v), sample=dict(kind=kind, v=v) if len(repr(v)) < 700 else None,
-                 tags=B.shape_tags(kind, v) + (["f64-input"] if opts["wide"] else []))
+                 tags=B.shape_tags(kind, v) + (["f64-input"] if opts["wide"] else []) + ([f"prov={opts['prov']}"] if opts["prov"] else []))
         if "nbytes" not in r or "enc" not in r:
             ctx.fail(f"{kind}: valid block cannot be sized/encoded ({r.get('exc', '')[:120]})", rep, ident=f"{kind} stage={r['stage']}")
             continue
@@ -79,7 +80,7 @@ def replay(path):
             print("capture case:", rp)
             continue
         kind, v = rp["kind"], A.norm(rp["v"])
-        r = B.real_side(kind, v, wide=rp.get("wide", False), vpstyle=rp.get("vpstyle", 0))
+        r = B.real_side(kind, v, wide=rp.get("wide", False), vpstyle=rp.get("vpstyle", 0), prov=rp.get("prov"))
         ok = "exc" not in r and r["nbytes"] == len(r["enc"]) == r["tell"] and all(a == b for a, b in r["items"])
         print(kind, "nBytes", r.get("nbytes"), "written", len(r.get("enc", b"")), "consumed", r.get("tell"), "->", "holds" if ok else "FAILS")
         rc |= 0 if ok else 1
